@@ -38,7 +38,10 @@ QUICK = {
     "C08": [_A2, _Bq, _Cq, _D],    # defects at every position, split / entry dimensions
 }
 THOROUGH = [_A, _A2, ("B", "MC_emf_B.cfg", None), ("C", "MC_emf_C.cfg", None), ("D", "MC_emf_D.cfg", None),
-            ("E", "MC_emf_E.cfg", 4000), ("E2", "MC_emf_E2.cfg", 4000)]
+            ("E", "MC_emf_E.cfg", 16000), ("E2", "MC_emf_E2.cfg", 120)]
+# third field of a simulated slice = total number of random traces (divided among the TLC workers).  In slice E
+# TLC prints the states of the trace only (~5 per trace); in slice E2 (history-dependent alphabet) it evaluates the
+# invariants - and therefore prints - every successor of every state of the trace (~1000 per trace).
 
 
 def slices_for(prop, tier):
@@ -88,8 +91,8 @@ def _run_slice(args):
     if sim is None:
         r = vlib.tlc(SPECD, MODULE, cfg, workers=workers, coverage=True, timeout=3000, heap="6g")
     else:
-        r = vlib.tlc(SPECD, MODULE, cfg, workers=workers, simulate=sim, depth=SIM_DEPTH, seed=seed, timeout=3000,
-                     heap="6g")
+        r = vlib.tlc(SPECD, MODULE, cfg, workers=workers, simulate=max(1, sim // workers), depth=SIM_DEPTH, seed=seed,
+                     timeout=3000, heap="6g")
         m = re.findall(r"The number of states generated: (\d+)", r.out)
         if m:
             r.generated = int(m[-1])
@@ -108,7 +111,7 @@ def _run_slice(args):
     if sim is None and r.distinct != count:
         raise vlib.ToolError(f"{cfg}: {r.distinct} distinct states but {count} REPLAY lines")
     vlib.log(f"[tlc] {MODULE}/{cfg}: {r.distinct or r.generated} states, {count} behaviours printed, {r.wall:.1f}s"
-             + (f" (simulate num={sim} depth={SIM_DEPTH} seed={seed})" if sim else ""))
+             + (f" (simulate {sim} traces depth={SIM_DEPTH} seed={seed})" if sim else ""))
     return name, cfg, sim, r, path, count
 
 
@@ -311,7 +314,9 @@ def record_diff(er, rr):
         diffs.append({"directives_expected": ed, "directives_real": rd})
     left = list(rr["members"])
     for nm, ev in er["members"]:
-        hit = next((x for x in left if x[0] == nm and value_eq(ev, x[1])), None)
+        cands = [x for x in left if x[0] == nm and value_eq(ev, x[1])]
+        # with duplicate names (validations off) prefer the candidate of the same form
+        hit = next((x for x in cands if not form_differs(ev, x[1])), cands[0] if cands else None)
         if hit is None:
             cand = [x[1] for x in left if x[0] == nm]
             diffs.append({"member": nm, "expected": ev, "real": cand[0] if cand else "(absent)"})
@@ -483,6 +488,10 @@ ASSUMPTIONS = [
     "Emf::builder and skip_all_validations(false) are taken at their documentation: validations on iff debug assertions",
     "with name validation disabled an entry field named `_aws` becomes a second `_aws` member; the skeleton is judged "
     "on the first one",
+    "byte equality with the no-validation formatter is equality of the multiset of lines (split records are written in "
+    "the iteration order of a randomly seeded hash map); for entries that write no timestamp the digits after "
+    "\"Timestamp\": are masked and the value is checked to lie in the wall-clock window of the call",
+    "a metric emitted as a bare number and as {Values:[v],Counts:[1]} are the same content (the property allows both)",
 ]
 
 
@@ -608,20 +617,23 @@ def run(prop, tier):
 
 
 def replay(prop, path):
-    """Re-execute one violation file against the current tree."""
+    """Re-execute the behaviour of one violation file against the current tree (same concretisation
+    variant, same build profile) and judge it again. Exit code 1 while it still violates."""
     with open(path) as f:
         v = json.load(f)
     rep = v["replay"]
     b = rep["behaviour"]
     release = rep["profile"] == "release"
-    chk = vlib.Check(prop, "replay")
+    chk = vlib.Check(prop + "-replay", "replay")   # own scratch dir; the property's evidence file is left alone
+    chk.prop = prop
+    chk.findings = vlib.load_findings(prop)
     outs = drive(chk, [b], release, f"replay-{b['id']}")
     fs = [f for f in judge(b, outs[0], not release) if f["prop"] == prop and f["sev"] == "violation"]
-    chk.evaluations += 1
     for f in fs[:1]:
         chk.violation(f["what"], dict(rep, observed={k: f["run"][k] for k in ("ways", "status", "err", "len", "raw")}),
                       key=f["key"])
+    for f in chk.known_hits:
+        vlib.log(f"KNOWN-FINDING: property={prop} {f.get('what')}")
     if not fs:
-        chk.traces += 1
-        vlib.log(f"[{prop}] replay of {path}: the real formatter now agrees with the model")
-    return chk.finish()
+        vlib.log(f"[{prop}] replay of {path}: the real formatter agrees with the model on this entry")
+    return 1 if chk.violations else 0
